@@ -20,6 +20,7 @@ import (
 	"go/token"
 	"go/types"
 	"reflect"
+	"strings"
 	"unsafe"
 
 	"golang.org/x/tools/go/ssa"
@@ -324,6 +325,19 @@ func (p *Program) Inlined(fn *ssa.Function) *ssa.Function {
 				if !ok {
 					continue
 				}
+				// a call of a function value that an expansion has made known (a helper
+				// parameter `find func()` bound to the method value p.findTitle): call it directly
+				if sc := c.Call.StaticCallee(); c.Call.Method == nil && (sc == nil || sc.Synthetic != "") {
+					if tgt, recv := il.knownFuncValue(c.Call.Value); tgt != nil {
+						nc := cloneInstr(c).(*ssa.Call)
+						nc.Call.Value = tgt
+						nc.Call.Args = append(append([]ssa.Value{}, recv...), c.Call.Args...)
+						b.Instrs[i] = nc
+						il.subst[c] = nc
+						il.chain[nc] = il.chain[c]
+						c = nc
+					}
+				}
 				callee := c.Call.StaticCallee()
 				if !Transparent(callee) {
 					continue
@@ -382,6 +396,31 @@ func (p *Program) Inlined(fn *ssa.Function) *ssa.Function {
 		}
 	}
 	return nf
+}
+
+// knownFuncValue resolves a called function value to a module function when the value is, after
+// the expansions made so far, a named function or a method value x.m (the synthetic bound-method
+// closure): the function and the receiver to pass first.
+func (il *inliner) knownFuncValue(v ssa.Value) (*ssa.Function, []ssa.Value) {
+	switch x := il.resolve(v).(type) {
+	case *ssa.Function:
+		if x.Synthetic == "" && x.Parent() == nil && len(x.Blocks) > 0 {
+			return x, nil
+		}
+	case *ssa.MakeClosure:
+		f, ok := x.Fn.(*ssa.Function)
+		if !ok || !strings.HasPrefix(f.Synthetic, "bound method wrapper") || len(x.Bindings) != 1 || len(f.Blocks) != 1 {
+			return nil, nil
+		}
+		for _, in := range f.Blocks[0].Instrs {
+			if c, ok := in.(*ssa.Call); ok {
+				if callee := c.Call.StaticCallee(); callee != nil && len(c.Call.Args) == len(f.Params)+1 && c.Call.Args[0] == ssa.Value(f.FreeVars[0]) {
+					return callee, []ssa.Value{il.resolve(x.Bindings[0])}
+				}
+			}
+		}
+	}
+	return nil, nil
 }
 
 // Region lists fn and the transparent callees that Inlined(fn) expands (fn may be the original
